@@ -37,3 +37,36 @@ class URandom:
 
 def urandoms():
     return st.randoms(use_true_random=False, note_method_calls=False).map(URandom)
+
+
+class FdpRandom:
+    """The same interface over an atheris FuzzedDataProvider: the generators written in 'random.Random style' then run on fuzzer-chosen
+    bytes, which makes every generated case reachable by coverage-guided mutation (when the bytes run out every draw returns its
+    minimum, i.e. the generators fall back to their smallest choices)."""
+
+    def __init__(self, fdp):
+        self._f = fdp
+
+    def random(self):
+        return self._f.ConsumeIntInRange(0, 249) / 250.0
+
+    def randint(self, a, b):
+        return self._f.ConsumeIntInRange(a, b)
+
+    def choice(self, seq):
+        return seq[self._f.ConsumeIntInRange(0, len(seq) - 1)]
+
+    def sample(self, seq, k):
+        seq = list(seq)
+        out = []
+        for _ in range(k):
+            out.append(seq.pop(self._f.ConsumeIntInRange(0, len(seq) - 1)))
+        return out
+
+    def shuffle(self, lst):
+        for i in range(len(lst) - 1, 0, -1):
+            j = self._f.ConsumeIntInRange(0, i)
+            lst[i], lst[j] = lst[j], lst[i]
+
+    def chance(self, percent):
+        return self._f.ConsumeIntInRange(0, 99) < percent
